@@ -65,6 +65,7 @@ EXPECT = {
     'TW1': [('FixtureLint::Far', 'dlon')],
     'ANG1': [('FixtureLint::Units', 'units')],
     'ONE1': [('FixtureLint::InZone', 'dlon')],
+    'AUX1': [('FixtureLint::Rect', 'chi1 as phi')],
     'CP1': [('FixtureLint::Pad', 'easting/northing')],
     'X7r': [('FixtureShared::HalfFilled', 'alpha_')],
     'K7': [('FixtureRaster::probe', 'B1 filepos column')],
@@ -154,6 +155,9 @@ def run_controls(rules):
         elif r == 'ONE1':
             from .rules import lint
             res = lint.rule_ONE1(fx, None)[0]
+        elif r == 'AUX1':
+            from .rules import angles
+            res = angles.rule_AUX1(fx, None)[0]
         elif r == 'CP1':
             from .rules import lint
             res = lint.rule_CP1(fx, None)[0]
